@@ -247,6 +247,49 @@ example : (Val.list [.struct [.int 0xA, .bytes none,
 example : (Val.iface (some (Gen.requestMessageDyn, .ptr none))).dynsOk (Gen.schema.svFreeDyn 128) = false := by
   decide +kernel
 
+/-! a whole message, nested: RequestMessage → BatchItem → (interface) Get request payload → KeyWrapType
+    (a 1.4 element, populated) and KeyWrappingSpecification → EncodingOption (a 1.1 element, populated). -/
+
+mutual
+  def allTags : Item → List Nat
+    | .struct t cs => t :: allTagsL cs
+    | .int t _ | .long t _ | .big t _ | .enum t _ | .bool t _ | .text t _ | .bytes t _ | .date t _
+    | .interval t _ => [t]
+  def allTagsL : List Item → List Nat
+    | [] => []
+    | c :: cs => allTags c ++ allTagsL cs
+end
+
+def sampleMessage (major minor : Int) : Val :=
+  .struct [
+    .struct [.struct [.int major, .int minor], .int 0, .text [], .text [], .ptr none, .ptr none, .list [],
+             .ptr none, .int 0, .ptr none, .ptr none, .int 1],
+    .list [.struct [.int 0xA, .bytes none,
+      .iface (some (Gen.schema.payloadDyn 0xA false,
+        .ptr (some (.struct [.text [0x31], .int 0, .int 1, .int 0,
+          .ptr (some (.struct [.int 1, .ptr none, .ptr none, .list [], .int 1]))])))),
+      .ptr none]]]
+
+def messageTags (major minor : Int) : List Nat :=
+  match encK Gen.schema 64 (Gen.schema.dyn Gen.requestMessageDyn).kind T.requestMessage
+      (.ptr (some (sampleMessage major minor))) none with
+  | .ok (items, _) => allTagsL items
+  | _ => []
+
+/-- version 1.0: neither KeyWrapType (0x4200F8) nor EncodingOption (0x4200A3) is written. -/
+example : messageTags 1 0 =
+    [0x420078, 0x420077, 0x420069, 0x42006A, 0x42006B, 0x42000D,
+     0x42000F, 0x42005C, 0x420079, 0x420094, 0x420047, 0x42009E] := by decide +kernel
+/-- version 1.1: EncodingOption appears (two levels below the payload), KeyWrapType does not. -/
+example : messageTags 1 1 =
+    [0x420078, 0x420077, 0x420069, 0x42006A, 0x42006B, 0x42000D,
+     0x42000F, 0x42005C, 0x420079, 0x420094, 0x420047, 0x42009E, 0x4200A3] := by decide +kernel
+/-- version 1.4: both are written. -/
+example : messageTags 1 4 =
+    [0x420078, 0x420077, 0x420069, 0x42006A, 0x42006B, 0x42000D,
+     0x42000F, 0x42005C, 0x420079, 0x420094, 0x4200F8, 0x420047, 0x42009E, 0x4200A3] := by
+  decide +kernel
+
 /-- lenient decoding on bytes: a RequestHeader announcing version 1.0 but carrying a ClientCorrelationValue
     (a 1.4 element) decodes, and the element is returned. -/
 def lenientBytes : Bytes :=
